@@ -516,7 +516,22 @@ class _ExprInline(ast.NodeTransformer):
             return n
         prefix, mapping, rename = b
         if prefix:
-            return n        # an argument with effects cannot be bound inside an expression
+            # an argument that is a pure expression (arithmetic over names / fields / constants) and is used once by the helper can
+            # be substituted in place; anything with effects cannot be bound inside an expression
+            ret = body[0].value
+            extra = {}
+            for st in prefix:
+                v = st.value
+                fresh = st.targets[0].id
+                param = next((p_ for p_, f_ in rename.items() if f_ == fresh), None)
+                pure = not any(isinstance(x, (ast.Call, ast.Yield, ast.YieldFrom, ast.Await, ast.NamedExpr, ast.Lambda)) for x in ast.walk(v))
+                uses = sum(1 for x in ast.walk(ret) if isinstance(x, ast.Name) and x.id == param)
+                if param is None or not pure or uses > 1:
+                    return n
+                extra[param] = v
+            mapping = dict(mapping)
+            mapping.update(extra)
+            rename = {k: v for k, v in rename.items() if k not in extra}
         self.inl.inlined.append(h.name)
         return ast.copy_location(_Subst(mapping, rename).visit(_dc(body[0].value)), n)
 
